@@ -280,4 +280,44 @@ Definition set_intscale_of (cls : Z) (p1 rescale target : T) : option T :=
 Definition user_of (shape : Z) (var nugget lr : T) : userfns :=
   if Z.eqb shape 0 then user_gauss var nugget lr else user_expo var nugget lr.
 
+(* ---------- the object as a parameter state: assignments only rewrite parameters, every derived quantity is
+   computed from the CURRENT parameters (covmodel/base.py keeps no derived value between calls: the
+   integral_scale getter recomputes, len_rescaled / sill / len_scale_vec are properties) *)
+Record pstate := mkSt { s_var : T; s_len : T; s_nugget : T; s_rescale : T; s_p1 : T; s_p2 : T; s_p3 : T;
+                        s_dim : Z; s_anis : list T }.
+Inductive setop :=
+  | SetVar (v : T) | SetLen (v : T) | SetNugget (v : T) | SetRescale (v : T)
+  | SetOpt (slot : nat) (v : T) | SetDim (d : Z) | SetAnis (a : list T) | SetIntScale (target : T).
+Definition construct (var len nug resc p1 p2 p3 : T) (dim : Z) (anis : list T) : pstate :=
+  mkSt var len nug resc p1 p2 p3 dim anis.
+Definition set_step (cls : Z) (st : pstate) (op : setop) : pstate :=
+  match st with
+  | mkSt var len nug resc p1 p2 p3 dim anis =>
+    match op with
+    | SetVar v => mkSt v len nug resc p1 p2 p3 dim anis
+    | SetLen v => mkSt var v nug resc p1 p2 p3 dim anis
+    | SetNugget v => mkSt var len v resc p1 p2 p3 dim anis
+    | SetRescale v => mkSt var len nug (nabs O v) p1 p2 p3 dim anis
+    | SetOpt 0%nat v => mkSt var len nug resc v p2 p3 dim anis
+    | SetOpt 1%nat v => mkSt var len nug resc p1 v p3 dim anis
+    | SetOpt _ v => mkSt var len nug resc p1 p2 v dim anis
+    | SetDim d => mkSt var len nug resc p1 p2 p3 d anis
+    | SetAnis a => mkSt var len nug resc p1 p2 p3 dim a
+    | SetIntScale target =>
+        match set_intscale_of cls p1 resc target with
+        | Some l => mkSt var l nug resc p1 p2 p3 dim anis
+        | None => st
+        end
+    end
+  end.
+Definition run_ops (cls : Z) (ops : list setop) (st : pstate) : pstate := fold_left (set_step cls) ops st.
+(* what a caller can read: the three functions at a lag, sill, len_rescaled, len_scale_vec, integral scale *)
+Record observed := mkObs { o_corr : T; o_cov : T; o_vario : T; o_sill : T; o_lr : T; o_lenvec : list T;
+                           o_intscale : option T }.
+Definition observe (cls : Z) (st : pstate) (r : T) : observed :=
+  let f := class_get cls (s_p1 st) (s_p2 st) (s_p3 st) (s_dim st) (s_var st) (s_len st) (s_nugget st) (s_rescale st) in
+  mkObs (f Correlation r) (f Covariance r) (f Variogram r) (sill (s_var st) (s_nugget st))
+        (len_rescaled (s_len st) (s_rescale st)) (s_len st :: map (fun a => s_len st *! a) (s_anis st))
+        (intscale_of cls (s_p1 st) (len_rescaled (s_len st) (s_rescale st))).
+
 End Model.
